@@ -73,12 +73,12 @@ func (b *t87Bits) bits(k int) int {
 
 type t87State struct {
 	maxval, near, rng, qbpp, bpp, limit, reset int
-	t1, t2, t3                               int
-	A, B, C, N                               [367]int
-	Nn                                       [2]int
-	runIndex                                 int
-	st                                       *T87Stats
-	br                                       *t87Bits
+	t1, t2, t3                                 int
+	A, B, C, N                                 [367]int
+	Nn                                         [2]int
+	runIndex                                   int
+	st                                         *T87Stats
+	br                                         *t87Bits
 }
 
 func ceilLog2(v int) int {
